@@ -16,7 +16,7 @@ pub enum Src {
 }
 
 pub type RunRec = fn(Src, &Doc) -> Result<Doc, Vec<u32>>;
-pub type RunMsg = fn(&Doc) -> Result<Doc, String>;
+pub type RunMsg = fn(Src, &Doc) -> Result<Doc, String>;
 
 #[derive(Clone, Copy)]
 pub struct Entry {
@@ -34,16 +34,22 @@ pub fn run_rec<T: Deserr<RecA> + Dump>(src: Src, d: &Doc) -> Result<Doc, Vec<u32
     r.map(|v| v.dump()).map_err(|e| e.ids)
 }
 
-fn run_json<T: Deserr<JsonError> + Dump>(d: &Doc) -> Result<Doc, String> {
-    deserr::deserialize::<T, serde_json::Value, JsonError>(d.to_json())
-        .map(|v| v.dump())
-        .map_err(|e| e.to_string())
+fn run_json<T: Deserr<JsonError> + Dump>(src: Src, d: &Doc) -> Result<Doc, String> {
+    match src {
+        Src::Json => deserr::deserialize::<T, serde_json::Value, JsonError>(d.to_json()),
+        Src::Ov => deserr::deserialize::<T, Doc, JsonError>(d.clone()),
+    }
+    .map(|v| v.dump())
+    .map_err(|e| e.to_string())
 }
 
-fn run_query<T: Deserr<QueryParamError> + Dump>(d: &Doc) -> Result<Doc, String> {
-    deserr::deserialize::<T, serde_json::Value, QueryParamError>(d.to_json())
-        .map(|v| v.dump())
-        .map_err(|e| e.to_string())
+fn run_query<T: Deserr<QueryParamError> + Dump>(src: Src, d: &Doc) -> Result<Doc, String> {
+    match src {
+        Src::Json => deserr::deserialize::<T, serde_json::Value, QueryParamError>(d.to_json()),
+        Src::Ov => deserr::deserialize::<T, Doc, QueryParamError>(d.clone()),
+    }
+    .map(|v| v.dump())
+    .map_err(|e| e.to_string())
 }
 
 pub fn entry_rec<T: Deserr<RecA> + Dump>(id: usize) -> Entry {
